@@ -454,7 +454,27 @@ impl<'a> Gen<'a> {
         while keys.len() < p.pool && tries < p.pool * 20 + 100 {
             tries += 1;
             let want = self.key_len(p) as usize;
-            let k = K::make_key(&mut self.rng, want);
+            let mut k = K::make_key(&mut self.rng, want);
+            // key families: prefixes, extensions and last-byte variants of keys already in the pool
+            // (byte-string key types only; the integer types have their own neighbours in make_key)
+            if (K::NAME == "bytes" || K::NAME == "string") && !keys.is_empty() && self.rng.chance(1, 4) {
+                let base: &Vec<u8> = &keys[self.rng.below(keys.len() as u64) as usize];
+                k = base.clone();
+                match self.rng.below(4) {
+                    0 => k.extend_from_slice(&[b'a' + self.rng.below(26) as u8]),
+                    1 => k.extend_from_slice(b"\0"),
+                    2 => {
+                        k.pop();
+                    }
+                    _ => {
+                        if let Some(l) = k.last_mut() {
+                            *l = if K::NAME == "string" { b'a' + (*l % 26) } else { l.wrapping_add(1) };
+                        } else {
+                            k.push(b'z');
+                        }
+                    }
+                }
+            }
             if seen.insert(k.clone()) {
                 keys.push(k);
             }
